@@ -106,6 +106,15 @@ def correspondence(ctx):
     model = vlib.run_sharded(ctx["driver"], "layout", cases)
     dis = vlib.compare(cases, impl, model)
     findings, broken = [], []
+    # the independent oracle is also run on every agreeing case: model and implementation could be wrong together
+    agree = set(c.split()[0] for c in cases) - set(d["case"].split()[0] for d in dis)
+    for c in cases:
+        k = c.split()[0]
+        if k in agree and len(findings) < 5:
+            clause = oracle(c, impl.get(k, "<no output>"))
+            if clause:
+                findings.append({"case": c[:2000], "impl": impl.get(k), "model": model.get(k), "violated_clause": clause,
+                                 "note": "implementation and model agree; the independent oracle derived from the property text disagrees with both"})
     for d in dis[:50]:
         clause = oracle(d["case"], d["impl"])
         if clause:
